@@ -27,6 +27,9 @@ E0 = (None, ())  # script used when nothing was pushed
 R = J.append
 P = Q.append
 M = J.__len__
+import random as _random_module  # noqa: E402
+
+RND = _random_module.random   # the program's own use of the global RNG (C-level builtin method)
 
 
 def reset():
